@@ -294,7 +294,7 @@ func derivesFromField(v ssa.Value, f *types.Var, depth int) bool {
 // ---- C02.4 ---------------------------------------------------------------------------------------------------
 
 func checkC02ExactLookup(w *World, r *Report) {
-	ru := r.Rule("C02.4", "one acceptance test for exact lookups: Router.Route, Txn.Route and Iter.Routes hand out a route only under n != nil, !tsr and n.route.pattern == pattern, after looking up SplitHostPath(pattern) in their own root; Router.Has and Txn.Has delegate to Route", 3)
+	ru := r.Rule("C02.4", "one acceptance test for exact lookups: Router.Route, Txn.Route and Iter.Routes hand out a route only under n != nil, !tsr and n.route.pattern == pattern after looking up SplitHostPath(pattern) in their own root, or all delegate to one structural search (roots.route) that returns a route only for an exactly matched leaf with that very pattern; Router.Has and Txn.Has delegate to Route", 3)
 	checkAccept := func(fn *ssa.Function, what string) {
 		n := 0
 		for _, g := range withAnon(fn) {
@@ -347,9 +347,73 @@ func checkC02ExactLookup(w *World, r *Report) {
 			ru.Fail("acceptance in "+what, w.Pos(fn.Pos()), "the exact lookup exposes the found route", "no exposure of n.route found")
 		}
 	}
-	checkAccept(w.Method("Router", "Route"), "Router.Route")
-	checkAccept(w.Method("Txn", "Route"), "Txn.Route")
-	checkAccept(w.Method("Iter", "Routes"), "Iter.Routes")
+	// second form: the three entry points delegate to one structural search (roots.route) and expose exactly its result
+	structural := w.TryMethodIn(modulePath, "roots", "route")
+	checkDelegates := func(fn *ssa.Function, what string) bool {
+		if structural == nil {
+			return false
+		}
+		found := false
+		for _, g := range withAnon(fn) {
+			eachInstr(g, func(in ssa.Instruction) {
+				if c, ok := in.(*ssa.Call); ok && c.Call.StaticCallee() == structural {
+					found = true
+					// the pattern argument is the entry point's own pattern
+					ru.Check("acceptance in "+what, w.InstrPos(in), "the exact lookup hands its own pattern to the structural search and exposes only what that returns", isPatternArg(g, c.Call.Args[len(c.Call.Args)-1]), "pattern argument "+valStr(c.Call.Args[len(c.Call.Args)-1]))
+				}
+			})
+		}
+		return found
+	}
+	nDeleg := 0
+	for _, spec := range [][2]string{{"Router", "Route"}, {"Txn", "Route"}, {"Iter", "Routes"}} {
+		fn := w.Method(spec[0], spec[1])
+		if checkDelegates(fn, spec[0]+"."+spec[1]) {
+			nDeleg++
+		} else {
+			checkAccept(fn, spec[0]+"."+spec[1])
+		}
+	}
+	if nDeleg > 0 {
+		// the structural search hands out a route only from an exactly matched leaf whose pattern is the one asked for
+		n := 0
+		eachInstr(structural, func(in ssa.Instruction) {
+			ret, ok := in.(*ssa.Return)
+			if !ok || len(ret.Results) != 1 || isNilConst(ret.Results[0]) {
+				return
+			}
+			rb, rf, ok := loadedField(ret.Results[0])
+			if !ok || rf.Name() != "route" {
+				ru.Fail("acceptance in roots.route", w.InstrPos(ret), "returns the route of the node found", "returns "+valStr(ret.Results[0]))
+				n++
+				return
+			}
+			n++
+			nonNil, leaf, samePattern, fromSearch := false, false, false, false
+			if c, ok := rb.(*ssa.Call); ok && c.Call.StaticCallee() != nil && c.Call.StaticCallee().Name() == "search" {
+				fromSearch = isPatternArg(structural, c.Call.Args[len(c.Call.Args)-1])
+			}
+			for _, f := range factsAtBlock(ret.Block()) {
+				if bo, ok := f.Cond.(*ssa.BinOp); ok {
+					if bo.X == rb && isNilConst(bo.Y) && ((bo.Op == token.NEQ && f.Val) || (bo.Op == token.EQL && !f.Val)) {
+						nonNil = true
+					}
+					if (bo.Op == token.EQL && f.Val) || (bo.Op == token.NEQ && !f.Val) {
+						if _, pf, ok1 := loadedField(bo.X); ok1 && pf.Name() == "pattern" && isPatternArg(structural, bo.Y) {
+							samePattern = true
+						}
+					}
+				}
+				if c, ok := f.Cond.(*ssa.Call); ok && f.Val && c.Call.StaticCallee() != nil && c.Call.StaticCallee().Name() == "isLeaf" && c.Call.Args[0] == rb {
+					leaf = true
+				}
+			}
+			ru.Check("acceptance in roots.route", w.InstrPos(ret), "route exposed only for the node found by the verbatim search of the pattern, under n != nil && n.isLeaf() && n.route.pattern == pattern", nonNil && leaf && samePattern && fromSearch, fmt.Sprintf("fromSearchOfPattern=%v nNonNil=%v isLeaf=%v patternEqual=%v", fromSearch, nonNil, leaf, samePattern))
+		})
+		if n == 0 {
+			ru.Fail("acceptance in roots.route", w.Pos(structural.Pos()), "the structural search exposes the found route", "no return of n.route")
+		}
+	}
 	for _, t := range []string{"Router", "Txn"} {
 		has := w.Method(t, "Has")
 		route := w.Method(t, "Route")
